@@ -47,6 +47,10 @@ PROP = dict(
         "(TokenPairsProofs.fresh_ok), (2) block heights are not negative; that NFT ids appear only through Register events "
         "of the Turnstile is derived from Model/Csr.v (C18_csr_ids_from_register_events), pool sequence, parameter validity "
         "and the registry invariants are derived from the Coinswap, Authority, TokenPairs and Csr models",
+        "stream bulk (1 case per quick run): more than 100 CSRs, token pairs and pools (query.Paginate DefaultLimit = 100); the Coq monitors see it "
+        "(the case is evaluated by vm_compute like the others), and two Go-side monitors run on every case: export-omits-stored-objects:<module> "
+        "(first export vs the module store read by raw prefix iteration) and reimported-chain-lost-objects:<module> (listing queries paged through all "
+        "pages with explicit page requests on both chains); epoch identifiers are not multiplied (they are written by genesis only)",
         "stored token pairs carry well-formed denomination / address strings (RegisterCoin / RegisterERC20 validate them); "
         "checked on every case by the ValidateGenesis monitor",
     ],
